@@ -215,12 +215,17 @@ class Interp:
                 "isclass": PyFunc(lambda x: isinstance(x, ClassRef), "isclass", True)}),
             "keyword": Obj("module:keyword", {"iskeyword": PyFunc(__import__("keyword").iskeyword, "iskeyword")}),
             "builtins": Obj("module:builtins"),
+            "itertools": Obj("module:itertools", {
+                "product": PyFunc(lambda *a, repeat=1: list(__import__("itertools").product(*[list(q) for q in a], repeat=repeat)), "product", True),
+                "chain": PyFunc(lambda *a: [y for q in a for y in q], "chain", True),
+                "combinations": PyFunc(lambda a, r: list(__import__("itertools").combinations(list(a), r)), "combinations", True)}),
             "string": Obj("module:string", {"ascii_lowercase": "abcdefghijklmnopqrstuvwxyz",
                                             "ascii_uppercase": "ABCDEFGHIJKLMNOPQRSTUVWXYZ"}),
         }
         self.class_call_hook = None
         self.overrides: Dict[str, Any] = {}      # 'module.function' -> value replacing the repository definition
-        self.plain_classes = {"KingdonPrinter": "codegen.KingdonPrinter", "AdditionChains": "codegen.AdditionChains"}
+        self.plain_classes = {"KingdonPrinter": "codegen.KingdonPrinter", "AdditionChains": "codegen.AdditionChains",
+                              "Polynomial": "polynomial.Polynomial", "RationalPolynomial": "polynomial.RationalPolynomial"}
         # classes whose instances (Obj of that kind) resolve attributes through the repository source
         self.instance_classes = {"MultiVector": "multivector.MultiVector", "TapeRecorder": "taperecorder.TapeRecorder",
                                  "GraphWidget": "graph.GraphWidget"}
@@ -449,10 +454,17 @@ class Interp:
                     r = o.methods["binop"](type(op).__name__, other, refl)
                     if r is not NotImplemented:
                         return r
+            d = BINOP_DUNDER.get(type(op))
+            if d is not None:
+                for o, other, name in ((a, b, d), (b, a, BINARY_DUNDERS.get(d))):
+                    if isinstance(o, Obj) and o.kind in self.instance_classes and name:
+                        fn = self._class_def(o.kind, name)
+                        if isinstance(fn, ast.FunctionDef):
+                            return self.call_function(fn, [o, other], {}, {}, self.instance_classes[o.kind].split(".")[0])
             return Unk("binop")
         if isinstance(op, ast.Div):
             try:
-                if isinstance(a, (int, Fraction)) and isinstance(b, (int, Fraction)) and not isinstance(a, bool):
+                if isinstance(a, Fraction) or isinstance(b, Fraction):
                     return Fraction(a) / Fraction(b)
                 return a / b
             except ZeroDivisionError:
@@ -483,6 +495,11 @@ class Interp:
         if isinstance(v, Obj):
             if "unop" in v.methods:
                 return v.methods["unop"](type(op).__name__)
+            d = UNOP_DUNDER.get(type(op))
+            if v.kind in self.instance_classes and d:
+                fn = self._class_def(v.kind, d)
+                if isinstance(fn, ast.FunctionDef):
+                    return self.call_function(fn, [v], {}, {}, self.instance_classes[v.kind].split(".")[0])
             return Unk("unop")
         if isinstance(op, ast.USub):
             return -v
@@ -503,6 +520,12 @@ class Interp:
         if isinstance(v, Obj):
             if "truth" in v.methods:
                 return v.methods["truth"]()
+            if v.kind in self.instance_classes:
+                for d in ("__bool__", "__len__"):
+                    fn = self._class_def(v.kind, d)
+                    if isinstance(fn, ast.FunctionDef):
+                        r = self.call_function(fn, [v], {}, {}, self.instance_classes[v.kind].split(".")[0])
+                        return self.truth(r, node)
             return True
         return bool(v)
 
@@ -589,6 +612,13 @@ class Interp:
         init = self._class_def(name, "__init__")
         if isinstance(init, ast.FunctionDef):
             self.call_function(init, [o] + list(args), kwargs, {}, qual.split(".")[0])
+        else:
+            cls = self.repo.cls(qual)
+            fields = [st.target.id for st in cls.body if isinstance(st, ast.AnnAssign) and isinstance(st.target, ast.Name)
+                      and not (isinstance(st.value, ast.Call) and "init=False" in un(st.value))]
+            vals = dict(zip(fields, args))
+            vals.update(kwargs)
+            o.attrs.update(vals)
         return o
 
     def _namedtuple_fields(self, name):
@@ -1036,6 +1066,20 @@ class Interp:
             r = a.methods["compare"](type(op).__name__, b)
             if r is not NotImplemented:
                 return r
+        if isinstance(b, Obj) and "compare" in b.methods and not isinstance(a, Obj) and isinstance(op, (ast.Eq, ast.NotEq)):
+            r = b.methods["compare"](type(op).__name__, a)
+            if r is not NotImplemented:
+                return r
+        if isinstance(op, (ast.Eq, ast.NotEq)):
+            for o, other in ((a, b), (b, a)):
+                if isinstance(o, Obj) and o.kind in self.instance_classes:
+                    fn = self._class_def(o.kind, "__eq__")
+                    if isinstance(fn, ast.FunctionDef):
+                        r = self.call_function(fn, [o, other], {}, {}, self.instance_classes[o.kind].split(".")[0])
+                        if isinstance(r, Unk):
+                            return r
+                        r = self.truth(r, node)
+                        return r if isinstance(op, ast.Eq) else not r
         if isinstance(a, (Unk, T, Obj)) or isinstance(b, (Unk, T, Obj)):
             if isinstance(op, (ast.Is, ast.IsNot)):
                 r = a is b
@@ -1055,6 +1099,10 @@ class Interp:
         if isinstance(base, Obj):
             if base.getitem is not None:
                 return base.getitem(idx)
+            if base.kind in self.instance_classes:
+                fn = self._class_def(base.kind, "__getitem__")
+                if isinstance(fn, ast.FunctionDef):
+                    return self.call_function(fn, [base, idx], {}, {}, self.instance_classes[base.kind].split(".")[0])
             return Unk(f"{base.kind}[...]")
         if isinstance(base, (Unk, T)):
             return Unk("subscript")
